@@ -40,7 +40,7 @@ ASSUMPTIONS = [
 ]
 
 
-EXPECTED_PROBES = ['split_input_not_plain_float64_c_order', 'caller_overwrote_split_outputs', 'all_three_formats_compared', 'empty_first_set', 'empty_second_set', 'float_and_exact_floor_differ', 'gap_labels_rejected', 'ids_beyond_float32_exact_range', 'ids_differ_from_row_numbers', 'pct_times_n_is_an_integer', 'single_sample_file_loaded', 'split_reissued_after_prng_perturbation', 'three_or_more_classes']
+EXPECTED_PROBES = ['binary_file_replaced_at_same_path', 'split_input_not_plain_float64_c_order', 'caller_overwrote_split_outputs', 'all_three_formats_compared', 'empty_first_set', 'empty_second_set', 'float_and_exact_floor_differ', 'gap_labels_rejected', 'ids_beyond_float32_exact_range', 'ids_differ_from_row_numbers', 'pct_times_n_is_an_integer', 'single_sample_file_loaded', 'split_reissued_after_prng_perturbation', 'three_or_more_classes']
 
 
 def arms(tier):
@@ -126,6 +126,15 @@ def gen_case(rng, arm, tier, k=0):
         else:
             ops.append(["reseed", rng.randint(0, 6)])
     case["ops"] = ops
+    if arm == "mixed" and rng.random() < 0.5:
+        # a second data set that later replaces the first one at the same path
+        n2 = rng.randint(1, 12)
+        K2 = rng.randint(1, min(3, n2))
+        Y2 = list(range(K2)) + [rng.randrange(K2) for _ in range(n2 - K2)]
+        rng.shuffle(Y2)
+        case["alt"] = {"n": n2, "d": d, "K": K2, "X": [[f32(round(rng.uniform(-5, 5), 3)) for _ in range(d)] for _ in range(n2)], "Y": Y2, "ids": rng.sample(range(0, 900), n2)}
+        pos = rng.randrange(1, len(ops) + 1)
+        ops.insert(pos, ["write_opf", "alt"])
     return case
 
 
@@ -173,6 +182,7 @@ def run_case(case):
         real_seed(12345)
         opf_path = os.path.join(scratch, "data.opf")
         have_opf = False
+        fX, fY, fids = X, Y, ids  # what the binary file currently holds
         conv = {}  # fmt -> path
         loaded_formats = set()
         split_seen = {}  # (variant, pct, seed) -> (canonical result, perturbation counter)
@@ -234,10 +244,22 @@ def run_case(case):
         for k, op in enumerate(case["ops"]):
             kop = op[0]
             if kop == "write_opf":
-                write_opf(opf_path, case)
+                if len(op) > 1 and op[1] == "alt":
+                    if not case.get("alt") or not have_opf:
+                        continue
+                    cur = case["alt"]
+                    bump(out.probes, "binary_file_replaced_at_same_path")
+                else:
+                    cur = case
+                write_opf(opf_path, cur)
+                fX = np.array(cur["X"], dtype=np.float64).reshape(len(cur["X"]), d)
+                fY = np.array(cur["Y"], dtype=np.int64)
+                fids = cur["ids"]
+                conv = {}  # files converted from the previous content are no longer "the" conversion
+                loaded_formats = set()
                 have_opf = True
                 out.steps += 1
-                norm.append(("write_opf",))
+                norm.append(("write_opf", len(op) > 1))
             elif kop == "conv":
                 if not have_opf:
                     continue
@@ -271,29 +293,29 @@ def run_case(case):
                         raise Stop(violation("parser-returned-none", "parse_loader returned None for data loaded from the .%s file" % fmt, fmt=fmt, **facts))
                     Xl, Yl = np.asarray(Xl), np.asarray(Yl)
                     got_ids = [int(v) for v in np.asarray(data)[:, 0]]
-                    if got_ids != [int(i) for i in ids]:
-                        raise Stop(violation("ids-not-preserved", "ids loaded from the .%s file are %s, stored %s" % (fmt, got_ids[:6], ids[:6]), fmt=fmt))
+                    if got_ids != [int(i) for i in fids]:
+                        raise Stop(violation("ids-not-preserved", "ids loaded from the .%s file are %s, stored %s" % (fmt, got_ids[:6], fids[:6]), fmt=fmt))
                     what = "load_%s + parse_loader" % fmt
                 else:
                     sg = lib_call("Subgraph(from_file=.%s)" % fmt, B.subgraph_mod.Subgraph, from_file=conv[fmt])
-                    if len(sg.nodes) != n:
-                        raise Stop(violation("subgraph-from-file-wrong", "Subgraph(from_file=.%s) has %d nodes for %d stored samples" % (fmt, len(sg.nodes), n), fmt=fmt, **facts))
-                    Xl = np.array([np.asarray(nd.features, dtype=np.float64) for nd in sg.nodes]).reshape(n, -1)
+                    if len(sg.nodes) != len(fX):
+                        raise Stop(violation("subgraph-from-file-wrong", "Subgraph(from_file=.%s) has %d nodes for %d stored samples" % (fmt, len(sg.nodes), len(fX)), fmt=fmt, **facts))
+                    Xl = np.array([np.asarray(nd.features, dtype=np.float64) for nd in sg.nodes]).reshape(len(fX), -1)
                     Yl = np.array([nd.label for nd in sg.nodes])
                     what = "Subgraph(from_file=.%s)" % fmt
-                if Xl.shape != X.shape or abits(Xl.astype(np.float64)) != abits(X):
-                    raise Stop(violation("features-not-preserved", "%s: features differ from the stored float32 values (shape %s vs %s)" % (what, Xl.shape, X.shape), fmt=fmt, op=kop, **facts))
-                if [int(v) for v in Yl] != [int(v) for v in Y]:
-                    raise Stop(violation("labels-not-preserved", "%s: labels %s differ from stored label - 1 = %s" % (what, [int(v) for v in Yl][:8], [int(v) for v in Y][:8]), fmt=fmt, op=kop, **facts))
+                if Xl.shape != fX.shape or abits(Xl.astype(np.float64)) != abits(fX):
+                    raise Stop(violation("features-not-preserved", "%s: features differ from the stored float32 values (shape %s vs %s)" % (what, Xl.shape, fX.shape), fmt=fmt, op=kop, **facts))
+                if [int(v) for v in Yl] != [int(v) for v in fY]:
+                    raise Stop(violation("labels-not-preserved", "%s: labels %s differ from stored label - 1 = %s" % (what, [int(v) for v in Yl][:8], [int(v) for v in fY][:8]), fmt=fmt, op=kop, **facts))
                 loaded_formats.add(fmt)
                 if len(loaded_formats) == 3:
                     interesting = True
                     bump(out.probes, "all_three_formats_compared")
-                if n == 1:
+                if len(fX) == 1:
                     bump(out.probes, "single_sample_file_loaded")
-                if ids != list(range(n)):
+                if list(fids) != list(range(len(fX))):
                     bump(out.probes, "ids_differ_from_row_numbers")
-                if max(ids) > 2**24:
+                if max(fids) > 2**24:
                     bump(out.probes, "ids_beyond_float32_exact_range")
                 if K >= 3:
                     bump(out.probes, "three_or_more_classes")
